@@ -6,6 +6,7 @@ INVARIANT Blocks
 INVARIANT RoundTrip
 INVARIANT Gate
 INVARIANT Kept
+INVARIANT ThumbKept
 INVARIANT LazyUnobservable
 INVARIANT Untouched
 VIEW View
@@ -17,10 +18,11 @@ CONSTANTS
   Layers = {"d1", "d4", "cube"}
   Minors = {2, 3, 4, 5}
   Fmts = {"RGBA8888", "RGB888", "A8"}
-  Lows = {"NONE", "RGB888"}
+  Lows = {"NONE", "BGRA8888"}
   ResKinds = {}
   MaxRes = 0
   Access = FALSE
   Fills = {"l0"}
   History = FALSE
   MaxOps = 0
+  Thumbs = {"t16"}
